@@ -125,9 +125,9 @@ size_t svalue_save_size (const svalue_t * v) {
 
     case T_NUMBER:
       {
-        int64_t res = v->u.number;
+        uint64_t res = (uint64_t)v->u.number;
         size_t len;
-        len = res < 0 ? (res = (-res), 1) : 0; /* +1 for sign if negative, count digits with positive value */
+        len = v->u.number < 0 ? (res = 0 - res, 1) : 0; /* +1 for sign if negative, count digits of the magnitude */
         while (res > 9)
           {
             res /= 10;
@@ -211,16 +211,16 @@ void save_svalue (svalue_t * v, char **buf) {
 
     case T_NUMBER:
       {
-        int64_t res = v->u.number, fact;
+        uint64_t res = (uint64_t)v->u.number, fact; /* magnitude: -INT64_MIN does not fit an int64_t */
         size_t len = 1; /* least significant digit */
         int neg = 0;
         register char *cp;
 
-        if (res < 0)
+        if (v->u.number < 0)
           {
             len++; /* +1 for sign if negative */
             neg = 1;
-            res = (-res);
+            res = 0 - res;
           }
         fact = res;
         while (fact > 9)
@@ -610,7 +610,8 @@ static int restore_interior_string (char **val, svalue_t * sv) {
 
 static int parse_numeric (char **cpp, char c, svalue_t * dest) {
   char *cp = *cpp;
-  int res, neg;
+  uint64_t res; /* magnitude; LPC integers are 64-bit */
+  int neg;
 
   if (c == '-')
     {
@@ -622,12 +623,12 @@ static int parse_numeric (char **cpp, char c, svalue_t * dest) {
     }
   else
     neg = 0;
-  res = c - '0';
+  res = (uint64_t)(c - '0');
 
   while ((c = *cp++) && isdigit (c))
     {
       res *= 10;
-      res += c - '0';
+      res += (uint64_t)(c - '0');
     }
   if (c == '.')
     {
@@ -644,7 +645,7 @@ static int parse_numeric (char **cpp, char c, svalue_t * dest) {
         }
       while ((c = *cp++) && isdigit (c));
 
-      f1 += res;
+      f1 += (double)res;
       if (c == 'e')
         {
           int expo = 0;
@@ -688,7 +689,7 @@ static int parse_numeric (char **cpp, char c, svalue_t * dest) {
               expo *= 10;
               expo += (c - '0');
             }
-          f1 = res * pow (10.0, expo);
+          f1 = (double)res * pow (10.0, expo);
         }
       else if (c == '-')
         {
@@ -697,7 +698,7 @@ static int parse_numeric (char **cpp, char c, svalue_t * dest) {
               expo *= 10;
               expo += (c - '0');
             }
-          f1 = res * pow (10.0, -expo);
+          f1 = (double)res * pow (10.0, -expo);
         }
       else
         return 0;
@@ -710,7 +711,7 @@ static int parse_numeric (char **cpp, char c, svalue_t * dest) {
   else
     {
       dest->type = T_NUMBER;
-      dest->u.number = (neg ? -res : res);
+      dest->u.number = (int64_t)(neg ? 0 - res : res);
       *cpp = cp;
       return 1;
     }
